@@ -269,6 +269,9 @@ func driveOverlap(t *Tracer, r Rng, n int) {
 		switch r.Intn(4) {
 		case 0, 1:
 			hD, vD := r.In(0, 25), r.In(0, 25)
+			if i < n/3 { // small zoom gaps first (a broken overlap check may try to expand huge gaps and die)
+				hD, vD = r.In(0, 7), r.In(0, 7)
+			}
 			w := r.randomWindow(hD, vD, false)
 			a := r.randomID(w, hD, vD)
 			var b ID
